@@ -108,9 +108,17 @@ def call_symbolic(interp: Interp, st: St, f: V, args, kwargs):
             s.assume(T.F_cls(e) == T.F_errcls(ft, at))
             for anc in disc.exc_base.__mro__:       # upward closure of the subclass relation, instantiated locally
                 s.assume(T.F_sub(T.F_cls(e), interp.reg.cls(anc)))
+            if interp.loop_index:
+                s.assume(T.F_oidx(e) == interp.loop_index[-1])     # ghost: which iteration raised it (e is fresh)
             s.assume(T.F_raised_by(e) == ft)
             s.assume(T.F_raised_on(e) == at)
             s.assume(T.attr_fn("input_value")(e) == T.F_errval(ft, at))
+            # a newly allocated object is not an element of any list that already exists
+            mq = z3.Int("mq!")
+            for h_ in s.heap.values():
+                if isinstance(h_, HList) and h_.items is None:
+                    s.assume(z3.ForAll([mq], z3.Implies(z3.And(mq >= 0, mq < h_.ln), z3.Select(h_.arr, mq) != e),
+                                       patterns=[z3.Select(h_.arr, mq)]))
             interp.ensure_trails(s)
             # brand new to this activation: nothing has been appended to its trail here
             s.assume(z3.Select(s.trail_len, e) == z3.Select(interp.trail0[0], e))
